@@ -323,7 +323,7 @@ def _body_maxseqs(n, maxseqs, table):
 
             def calc_cdist_matrix(self, a, b):
                 raise NotImplementedError
-        seqs = pd_model.DataFrame({"CDR3B": list(labels)}, index=[7 + i for i in range(n)]) if table else list(labels)
+        seqs = pd_model.DataFrame({"CDR3B": list(labels)}, index=[7 + (i % 2 if table == "dup" else i) for i in range(n)]) if table else list(labels)
         got = distance.pcDelta(seqs, metric=TM(), bins=np_model.arange(0, 5), normalize=False, maxseqs=maxseqs)
         keep = min(n, maxseqs)
         picks = np_model.RANDOM.picks
@@ -368,7 +368,7 @@ def _replay_maxseqs(n, maxseqs, table):
 
             def calc_cdist_matrix(self, a, b):
                 raise NotImplementedError
-        seqs = pd.DataFrame({"CDR3B": labels}, index=[7 + i for i in range(n)]) if table else list(labels)
+        seqs = pd.DataFrame({"CDR3B": labels}, index=[7 + (i % 2 if table == "dup" else i) for i in range(n)]) if table else list(labels)
         for seed in range(5):
             np.random.seed(seed)
             got = distance.pcDelta(seqs, metric=TM(), bins=np.arange(0, 5), normalize=False, maxseqs=maxseqs)
@@ -513,8 +513,8 @@ def conditions(tier):
     for kind in ("table", "list", "tuple3", "series", "none"):
         out.append(Condition(f"C05/default_metric/{kind}", _body_default_metric(kind), _replay_default_metric(kind), budget=60, models=M,
                              bounds=f"default metric for input kind {kind}"))
-    for n, ms, table in [(3, 2, False), (3, 3, False), (3, 5, False), (4, 2, False), (4, 3, False), (3, 2, True), (4, 3, True), (2, 0, False)]:
-        out.append(Condition(f"C05/maxseqs/n={n}/maxseqs={ms}/" + ("table" if table else "list"), _body_maxseqs(n, ms, table),
+    for n, ms, table in [(3, 2, False), (3, 3, False), (3, 5, False), (4, 2, False), (4, 3, False), (3, 2, True), (4, 3, True), (2, 0, False), (3, 2, "dup"), (4, 2, "dup")]:
+        out.append(Condition(f"C05/maxseqs/n={n}/maxseqs={ms}/" + ("table-with-repeated-row-labels" if table == "dup" else "table" if table else "list"), _body_maxseqs(n, ms, table),
                              _replay_maxseqs(n, ms, table), budget=300, models=M, bounds=f"{n} elements, maxseqs={ms}, every possible draw"))
     for n1, n2, ms in [(2, 3, 2), (3, 2, 2), (3, 3, 2), (1, 3, 2), (2, 2, 3)] + ([(2, 4, 3), (4, 2, 3), (3, 4, 2)] if T else []):
         out.append(Condition(f"C05/maxseqs_cross/{n1}x{n2}/maxseqs={ms}", _body_maxseqs_cross(n1, n2, ms), _replay_maxseqs_cross(n1, n2, ms),
